@@ -72,8 +72,9 @@ pub fn gen_case(rng: &mut Rng, reader_heavy: bool, thorough: bool) -> SchedCase 
     positions: rng.chance(1, 2),
     ids: 1 + rng.usize(3),
     transparent: false,
+    odd_ids: rng.chance(1, 4),
   };
-  let ids: Vec<String> = (0..cfg.ids).map(|i| format!("d{}", i)).collect();
+  let ids: Vec<String> = id_names(&cfg);
   let mut ver = 1u64;
   // sequential setup: 0-2 committed batches so that compaction has work
   let mut setup = vec![Op::NewWriter { h: 99 }];
